@@ -218,6 +218,15 @@ func (st *state) check(o observation) *vdrv.Verdict {
 		v := vdrv.Fail(detail, "", fmt.Sprintf("delta: %s\nerrors: %s\noutputs: %s", o.delta.String(), msgTexts(o.result.Errors), outputNames(st, o.result.OutputFiles)))
 		return &v
 	}
+	// An I/O error while writing (disk full, a directory in the way of an output file, ...) is reported as a build error
+	// after some files have been written. Such environments are outside the property's domain; the generators do not
+	// produce them, and if one happens anyway the case is not judged.
+	for _, e := range o.result.Errors {
+		if strings.HasPrefix(e.Text, "Failed to write to output file") || strings.HasPrefix(e.Text, "Failed to create output directory") {
+			v := vdrv.Skip("io-error-while-writing")
+			return &v
+		}
+	}
 	outputs := o.result.OutputFiles
 	failedBeforeWrite := len(o.result.Errors) > 0
 	if o.sawOnEnd {
@@ -657,7 +666,7 @@ func runBuild(t *testing.T) {
 		"(outdir = src / inside src / symlink to src / case variant, outfile on an input, out-extension = input extension, hash-less entry/asset/chunk names, \"..\" in templates, outbase pairs) "+
 		"× Write × AllowOverwrite × fault (syntax error, missing import, missing export, failing on-end callback); oracle: tree snapshot (kind, mode, size, sha256, mtime, link target) before/after vs "+
 		"OutputFiles — see check(); non-trivial = the build wrote something, or was refused for an input/output or output/output collision")
-	H.SetupRapid("build", H.N(3000, 120000))
+	H.SetupRapid("build", H.N(2000, 300000))
 	rapid.Check(t, func(rt *rapid.T) {
 		c := genCase(rt, "build")
 		H.Report(rt, "build", caseKey(c), c, judge(c))
@@ -668,7 +677,7 @@ func runRebuild(t *testing.T) {
 	H.Rule("rebuild", "rapid: a context with 2–6 rebuilds; between rebuilds the project is edited so that outputs appear and disappear (asset import, dynamic-import chunk, CSS, second asset), "+
 		"break and repair (syntax error, missing import), content edits; optional Cancel() during the second build and failing on-end callback; oracle as build, plus: files deleted by a rebuild ⊆ files "+
 		"written by earlier builds of the context and not current outputs; non-trivial as build, or a stale output was deleted")
-	H.SetupRapid("rebuild", H.N(1200, 50000))
+	H.SetupRapid("rebuild", H.N(800, 150000))
 	rapid.Check(t, func(rt *rapid.T) {
 		c := genCase(rt, "context")
 		H.Report(rt, "rebuild", caseKey(c), c, judge(c))
@@ -678,7 +687,7 @@ func runRebuild(t *testing.T) {
 func runCLI(t *testing.T) {
 	H.Rule("cli", "rapid: the same projects and output locations through cli.RunWithPlugins (argv built from the spec with absolute paths; an observer plugin records the OutputFiles the build reported); "+
 		"oracle as build plus: exit code 0 iff no errors")
-	H.SetupRapid("cli", H.N(800, 30000))
+	H.SetupRapid("cli", H.N(500, 60000))
 	rapid.Check(t, func(rt *rapid.T) {
 		c := genCase(rt, "cli")
 		H.Report(rt, "cli", caseKey(c), c, judge(c))
